@@ -1,3 +1,4 @@
+import os
 from collections.abc import Iterable
 from typing import Any
 
@@ -30,7 +31,14 @@ class LxmlEventHandler(XmlHandler):
             return self.process_context(ctx, ns_map, clear=False)
 
         if self.parser.config.process_xinclude:
-            tree = etree.parse(source, base_url=self.parser.config.base_url)  # nosec
+            try:
+                tree = etree.parse(source, base_url=self.parser.config.base_url)  # nosec
+            except OSError as e:
+                # lxml reports undecodable bytes in an existing file this way
+                if isinstance(source, str) and os.path.isfile(source):
+                    raise ParserError(e)
+                raise
+
             try:
                 tree.xinclude()
             except (etree.XIncludeError, ValueError) as e:
